@@ -20,3 +20,5 @@ Check C08_ingest_fault_listed_present : forall (ops : list iop) x, In x (i_live 
 Check C08_ingest_fault_nothing_removed : forall (ops : list iop) o x, In x (i_sst (fold_left istep ops i0)) -> In x (i_sst (fold_left istep (ops ++ [o]) i0)).
 Check C08_ingest_success_listed_and_present : forall x roll fault s s', ingest false x roll fault s = (s', true) -> In x (i_sst s') /\ In x (i_live s').
 Check C08_ingest_cleanup_on_error_refuted : J i0 /\ ~ J (fst (ingest true 7 true (Some 6%nat) i0)).
+Check C08_ingest_manifest_fault_poisons : forall x roll k s, mem x (i_sst s) = false -> i_poison s = false -> (2 <= k)%nat -> (k < length (prog x roll s))%nat -> i_poison (fst (ingest false x roll (Some k) s)) = true /\ snd (ingest false x roll (Some k) s) = false.
+Check C08_ingest_poisoned_manifest_refuses : forall x roll fault s, i_poison s = true -> snd (ingest false x roll fault s) = false /\ i_live (fst (ingest false x roll fault s)) = i_live s /\ i_poison (fst (ingest false x roll fault s)) = true.
